@@ -15,31 +15,38 @@ row's syntactic lockset is held.  A data race is taken in adjacency form (`RaceO
 conflicting accesses (same location, different threads, at least one write, not both
 synchronisation operations) adjacent in some interleaving.
 
-Proved here, for the table of the current tree:
+Proved here.  General (every table): `bracket_holds`, `lockset_sound`, `lockset_complete`,
+`race_free_iff_disciplined`; `phase_adj` (thread creation / join order the phases: races of a whole
+program lie in the concurrent phase); `conforms_of_scoped` (threads whose own events are RAII-scoped
+conform to the table — the operational meaning of "syntactically inside a lock scope").
+For the table of the current tree (obligations re-evaluated by the kernel on every regeneration):
   * the four lifecycle members of `FilteringAlgorithm` (and every other member of that class) are
-    race free (`race_free_lifecycle`);
+    race free (`table_disciplined_lifecycle`, `race_free_lifecycle`, `…_program_lifecycle`, `…_scoped`);
   * every member of every library class other than the six `skip_` flags is race free
-    (`race_free_partial`); the full-strength statement `RaceFree table` is equivalent to
-    "`claimedUndisciplined` is empty" (`race_free_iff`), and it is *false* on the current tree: each
-    flag in `claimedUndisciplined` has a racy interleaving (`race_witness_exact`,
-    `…_counterexample` theorems in the generated file) — the known finding of C10.
+    (`table_disciplined_partial`, `race_free_partial`, `race_free_program_partial`);
+  * the full-strength statement `RaceFree table` is equivalent to "`claimedUndisciplined` is empty"
+    (`race_free_iff`), and it is *false* on the current tree: each flag in `claimedUndisciplined` has a
+    racy interleaving (`race_witness_exact`, `…_counterexample` theorems in the generated file) — the
+    known finding of C10.  Statements whose polarity would flip when a flag is fixed are deliberately
+    not hard obligations (an improvement must not alarm).
 
 TRUSTED (not proved):
   1. the reduction of the C++ memory model to sequentially consistent interleavings with
      mutex / atomic / thread-creation / join synchronisation, and the adjacency form of "data race"
      (Boehm–Adve) for programs that synchronise only through mutexes and seq_cst atomics;
-  2. the translator tools/racetable.py (clang AST → table): member accesses through `this`/objects,
-     read / write classification, syntactic recognition of `lock_guard` / `unique_lock` / `scoped_lock`
-     scopes on mutex members of `this`, expansion of virtual calls over the class hierarchy;
-     not seen: accesses through raw pointers to members, static data, calls through `std::function`,
-     code outside namespace bfl (Eigen, libstdc++ internals);
-  3. the role map (`controllerRoots`, `filterRoots`) and `Conforms` as a description of what the
-     two threads execute between `boot()` and the return of `wait()` (thread creation and join order
-     everything before / after; constructors and destructors run outside the concurrent phase);
+  2. the translator tools/racetable.py (clang AST → table): member accesses through `this`/objects and
+     data with static storage duration, read / write classification, syntactic recognition of
+     `lock_guard` / `unique_lock` / `scoped_lock` scopes on mutex members of `this` (early `unlock()`,
+     loops, stored lambdas treated conservatively), entry locksets of functions only called under a
+     lock, expansion of virtual calls over the class hierarchy;
+     not seen: accesses through raw pointers to members, calls through `std::function`, manual
+     `m.lock()` / `m.unlock()` (treated as unlocked), code outside namespace bfl (Eigen, libstdc++);
+  3. the role map (`controllerRoots`, `filterRoots`) and `Conforms` / `Scoped` as a description of what
+     the two threads execute between `boot()` and the return of `wait()`; a single controller thread;
   4. the class-level abstraction: a row's lockset names mutex members of the *same object* as the
      accessed member (both through `this`), objects are distinguished in the semantics (`Loc`, `Mx`).
-The translator and the role map are validated in both directions against ThreadSanitizer on every
-run (checks/c10.py).
+The translator and the role map are validated on every run (checks/c10.py): in both directions against
+ThreadSanitizer, and by an independent textual scan of every member function for member names.
 -/
 namespace BFL.C10
 open BFL.Race BFL.RaceTable
